@@ -1048,7 +1048,10 @@ def main():
     explore(ck, ck.budget(130, 1300), ck.budget(50, 600), ck.budget(30, 300), big, use_model)
     if ck.broken() and not ck.violations:
         # failing-input search on the real code with the larger budget (oracle only)
-        explore(ck, 1500, 600, 300, 0.05, use_model=False)
+        if ck.tier == "quick":
+            explore(ck, 500, 250, 120, 0.05, use_model=False)
+        else:
+            explore(ck, 1500, 600, 300, 0.05, use_model=False)
     ck.finish()
 
 
